@@ -37,13 +37,14 @@ type ShimModel struct {
 	Config    int                  `json:"config"`
 	Dups      int                  `json:"dups,omitempty"`
 	Resized   map[string]bool      `json:"resized,omitempty"`
+	Reused    map[string]bool      `json:"reused,omitempty"` // ask keys submitted a second time after the first use was over
 }
 
 func NewShimModel() *ShimModel {
 	return &ShimModel{
 		Nodes: map[string]string{}, NodeCap: map[string]Res{}, Apps: map[string]string{},
 		Keys: map[string]*KeyState{}, Used: map[string]bool{}, Foreign: map[string]string{},
-		ForeignV: map[string]int{}, Resized: map[string]bool{},
+		ForeignV: map[string]int{}, Resized: map[string]bool{}, Reused: map[string]bool{},
 	}
 }
 
@@ -73,6 +74,9 @@ func (m *ShimModel) Clone() *ShimModel {
 	}
 	if c.Resized == nil {
 		c.Resized = map[string]bool{}
+	}
+	if c.Reused == nil {
+		c.Reused = map[string]bool{}
 	}
 	return &c
 }
